@@ -113,7 +113,60 @@ theorem stored_grads_have_tensor_shape (h : Heap) (L : Nat) (g : Val) (topo : Li
     · cases hv
   exact (backLoop_run h topo hn topo [(L, g)] gr (fun x hx => hx) hw0 hrun).1
 
+/-! ## `backward(seed)` on a tensor without a creator (a leaf, or a former view whose base lingers) -/
+
+theorem startOver_graphless (h : Heap) (L : Nat) (hcr : (h.t L).creator = none) :
+    ((startOver h L).t L).base = none := by
+  unfold startOver
+  cases hbb : (h.t L).base with
+  | none => simp [hbb]
+  | some b => simp [hbb, hcr]
+
+theorem clearGraph_graphless (h : Heap) (L : Nat) (hb : (h.t L).base = none) (hcr : (h.t L).creator = none) :
+    clearGraph h.fuel h L = h.modT L (fun x => { x with vchildren := [], ops := [] }) := by
+  simp [Heap.fuel, clearGraph, hb, hcr]
+
+/-- **seeded_graphless_terminal.**  `backward(seed)` on a non-constant tensor that has no creator — a leaf, or a
+former view whose graph an earlier `backward` cleared while its base lingers — completes, stores the (broadcast)
+seed as that tensor's gradient and leaves it without a base, so that its public `.grad` *is* the seed: the same
+gradient `(L*g).sum().backward()` gives it. -/
+theorem seeded_graphless_terminal (h : Heap) (L : Nat) (seed : Seed) (g : Val)
+    (hc : (h.t L).const = false) (hcr : (h.t L).creator = none)
+    (hs : seedVal (h.t L).data.d.shape seed = .ok g) :
+    ∃ h', backward h L seed = .ok h' ∧ (h'.t L).base = none ∧ (h'.t L).grad = some g ∧
+      (gradProp h'.fuel h' L).2 = some g := by
+  have hb1 := startOver_graphless h L hcr
+  have hc1 : ((startOver h L).t L).const = false := by simp [hc]
+  have hcr1 : ((startOver h L).t L).creator = none := by simp [hcr]
+  unfold backward
+  simp only [hc, Bool.false_eq_true, if_false]
+  generalize startOver h L = h1 at hb1 hc1 hcr1 ⊢
+  have hcol : collect h1.fuel h1 L [] [] = some ([L], [L]) := by
+    simp [Heap.fuel, collect, hc1, Heap.inp, hcr1]
+  simp only [hcol, hs, List.foldl_cons, List.foldl_nil]
+  have hcr2 : ((h1.modT L ({ · with grad := none, viewGrad := none })).t L).creator = none := by simp [hcr1]
+  simp only [backwardGrads, hcr2, Option.isNone_none, if_true]
+  have e3 : storeGrads (h1.modT L ({ · with grad := none, viewGrad := none })) [(L, g)]
+      = ((h1.modT L ({ · with grad := none, viewGrad := none })).fresh.1).modT L
+          ({ · with grad := some g, gradObj := (h1.modT L ({ · with grad := none, viewGrad := none })).fresh.2 }) := rfl
+  rw [e3]
+  generalize hh3 : ((h1.modT L ({ · with grad := none, viewGrad := none })).fresh.1).modT L
+          ({ · with grad := some g, gradObj := (h1.modT L ({ · with grad := none, viewGrad := none })).fresh.2 }) = h3
+  have b3 : (h3.t L).base = none := by subst hh3; simp [hb1]
+  have c3 : (h3.t L).creator = none := by subst hh3; simp [hcr1]
+  have g3 : (h3.t L).grad = some g := by subst hh3; simp
+  rw [clearGraph_graphless h3 L b3 c3]
+  refine ⟨_, rfl, by simp [b3], by simp [g3], ?_⟩
+  simp [gradProp, Heap.fuel, gradPropObj, b3, g3]
+
 /-! ## Non-vacuity -/
+
+/-- a former view (base `0` lingers, no creator) of shape (2,) seeded with a scalar-shaped array -/
+example :
+    let h : Heap := (({} : Heap).setT 0 { data := ⟨0, Desc.contig 0 [4]⟩, const := false }).setT 1
+      { data := ⟨0, ⟨0, [2], [2]⟩⟩, const := false, base := some 0 }
+    (h.t 1).const = false ∧ (h.t 1).creator = none ∧ (h.t 1).base = some 0 ∧
+      seedVal (h.t 1).data.d.shape (.val ([1], [3])) = .ok ([2], [3, 3]) := by decide
 
 example : seedVal [2, 3] (.val ([3], [1, 2, 3])) = .ok ([2, 3], [1, 2, 3, 1, 2, 3]) := by decide
 example : seedVal [2, 3] (.val ([2], [1, 2])) = .error .valueError := by decide
